@@ -29,6 +29,7 @@ class Env:
         self.nodes = [g.CodeBlock(size=1, offset=0, byte_interval=bi), g.CodeBlock(size=1, offset=4, byte_interval=bi),
                       g.ProxyBlock(module=m), g.CodeBlock(size=2, offset=8, byte_interval=bi),
                       g.CodeBlock(size=1, offset=0, byte_interval=bi2), g.ProxyBlock(), g.CodeBlock(size=1, offset=2)]
+        self.m_here, self.m_other, self.bi_here, self.bi_other = m, m2, bi, bi2
         self.num = {id(n): i + 1 for i, n in enumerate(self.nodes)}
         T = g.Edge.Type
         self.labels = [None, g.Edge.Label(T.Branch, False, False), g.Edge.Label(T.Branch, True, False), g.Edge.Label(T.Branch, False, True),
@@ -95,13 +96,12 @@ def run_history(ctx, g, rng, length):
                 problems.append("in_edges(n%d) = %s" % (n, ie))
             og = sorted(env.canon_edge(e) for e in node.outgoing_edges)
             ig = sorted(env.canon_edge(e) for e in node.incoming_edges)
+            # a node's own views follow the CFG of the IR it CURRENTLY belongs to (the other IR's CFG is empty, a detached node has none)
             attached_here = node.ir is env.ir
-            if og != (oe if attached_here else []) and n != 5:
-                problems.append("n%d.outgoing_edges = %s" % (n, og))
-            if ig != (ie if attached_here else []) and n != 5:
-                problems.append("n%d.incoming_edges = %s" % (n, ig))
-            if n == 5 and (og or ig):
-                problems.append("a node of another IR reports edges of this CFG")
+            if og != (oe if attached_here else []):
+                problems.append("n%d.outgoing_edges = %s while its IR is %s" % (n, og, "this one" if attached_here else ("another" if node.ir is not None else "none")))
+            if ig != (ie if attached_here else []):
+                problems.append("n%d.incoming_edges = %s while its IR is %s" % (n, ig, "this one" if attached_here else ("another" if node.ir is not None else "none")))
             ctx.count("adjacency_observations", 2)
         for _ in range(4):
             t = rand_edge(rng, list(pool))
@@ -134,6 +134,20 @@ def run_history(ctx, g, rng, length):
 
     pool = []
     for step in range(length):
+        if rng.random() < 0.12:
+            # containment changes under the CFG: a node moves to the other IR, is detached, or comes back (the edge set is untouched)
+            k = rng.randrange(len(env.nodes))
+            nd = env.nodes[k]
+            where = rng.choice(["here", "other", "none"])
+            if isinstance(nd, g.ProxyBlock):
+                nd.module = {"here": env.m_here, "other": env.m_other, "none": None}[where]
+            else:
+                nd.byte_interval = {"here": env.bi_here, "other": env.bi_other, "none": None}[where]
+            ctx.count("node_moved:" + where)
+            observe(full=True)
+            if problems:
+                break
+            continue
         m = rng.choice(["add", "add", "add", "discard", "discard", "remove", "pop", "clear", "update", "ior", "iand", "isub", "ixor"])
         if m == "clear" and rng.random() < 0.7:
             m = "add"
